@@ -305,8 +305,10 @@ func extractColor(str string, state *ansiState, proc func(string, *ansiState) bo
 		proc(rest, state)
 	}
 	if len(offsets) > 0 {
-		if len(rest) > 0 && state != nil {
-			// Update last offset
+		if state != nil {
+			// Update last offset. This is needed even when nothing follows the last
+			// escape sequence: a sequence that leaves the state as it was
+			// (e.g. "\x1b[K") does not close the span.
 			runeCount += utf8.RuneCountInString(rest)
 			(&offsets[len(offsets)-1]).offset[1] = int32(runeCount)
 		}
